@@ -70,6 +70,15 @@ def families(rng, dtype):
             if r2.random() < 0.3:
                 lo_h, hi_h = hi_h, lo_h
             out.append(("huge-values", dict(s=float(sh), r=float(rr)), (lambda x, s=sh, r=rr: s * ((x - r) * (T(1.0) + (x - r) * (x - r)))), lo_h, hi_h, True, True))
+        # ... and values whose pairwise products UNDERFLOW to zero (a sign test by product sees no bracket)
+        tiny_lg = float(np.log10(float(np.finfo(T).tiny)))
+        for _k in range(2):
+            st_ = T(10.0) ** T(r2.uniform(0.93 * tiny_lg, 0.55 * tiny_lg)) * T(r2.choice([-1, 1]))
+            rr = T(r2.uniform(-0.8, 0.8))
+            lo_t, hi_t = rr - T(r2.uniform(0.3, 1.5)), rr + T(r2.uniform(0.3, 1.5))
+            if r2.random() < 0.3:
+                lo_t, hi_t = hi_t, lo_t
+            out.append(("tiny-values", dict(s=float(st_), r=float(rr)), (lambda x, s=st_, r=rr: s * (np.exp(x - r) - T(1.0))), lo_t, hi_t, True, True))
     return out
 
 
